@@ -34,6 +34,15 @@ theorem c14_write_failure_reported (total k : Nat) :
   unfold Reader.sendWriteFail
   constructor <;> intro h <;> simp [h]
 
+/-- a dead transport keeps failing: every further iteration of the reader loop on an exhausted
+transport that ended by EOF or a read error reports an error again (it is the loop of `Conn.ReadFrom`
+that re-reports, so that every consumer asking later is answered; tied to the code by the repeated
+calls of the `rd` harness lines) -/
+theorem c14_dead_transport_keeps_failing (sched : List Nat) (fin : Reader.Fin) (h : fin ≠ .hang) :
+    (Reader.readPacket ⟨[], sched, fin⟩).1 = [.connErr] := by
+  unfold Reader.readPacket Reader.readExact
+  cases fin <;> simp_all
+
 /-- non-vacuity of the `WholeP` hypothesis: DONE(MORE) DONE(FINAL) parses whole into its two packages -/
 example : WholeP Codec.ops none ([0xFD, 1, 0, 0, 0, 5, 0, 0, 0] ++ [0xFD, 0, 0, 0, 0, 7, 0, 0, 0])
     [.done "done" ⟨1, 0, 5⟩, .done "done" ⟨0, 0, 7⟩] := by
